@@ -129,6 +129,36 @@ def work(job):
     return out
 
 
+def native_structured(n_random: int):
+    """The directed chain V0 -> ... -> V4 with every pair of bidirected chords (45 graphs: collider paths through
+    conditioned district members need five nodes), and pseudo-random sparse ADMGs on 5-6 nodes."""
+    import random
+
+    from ..common import seed
+
+    rng = random.Random(3000 + seed())
+    U = universe(5)
+    chain = [(U[i], U[i + 1]) for i in range(4)]
+    bad, cnt = [], 0
+    for chords in itt.combinations(list(itt.combinations(U, 2)), 2):
+        cnt += 1
+        r = native_case(U, chain, list(chords), None)
+        if r["bad"] and len(bad) < 5:
+            bad.append(r)
+    for i in range(n_random):
+        n = 5 if i % 3 else 6
+        W = universe(n)
+        order = W[:]
+        rng.shuffle(order)
+        di = [p for p in itt.combinations(order, 2) if rng.random() < 0.3]
+        bi = [p for p in itt.combinations(W, 2) if rng.random() < 0.2]
+        cnt += 1
+        r = native_case(W, di, bi, rng.choice((None, 1, 2)), order=order)
+        if r["bad"] and len(bad) < 5:
+            bad.append(r)
+    return cnt, bad
+
+
 def validate_native(n, ks):
     U = universe(n)
     pairs = list(itt.combinations(U, 2))
@@ -200,6 +230,11 @@ def run() -> int:
                 rep.harness_errors.append(f"{key}: solver counterexample did not reproduce natively: {cex}")
         rep.add_sample({"query": key, "verdict": r["verdict"], "candidate_judgements": r["candidates"], "encode_s": round(r["encode_s"], 2), "solve_s": round(r["solve_s"], 2)})
     cnt, bad = validate_native(3, [None, 0, 1])
+    unsupported = any("encoding cannot be built" in str(h) for h in rep.harness_errors)
+    cnt2, bad2 = native_structured(60 if unsupported else 12)
+    cnt += cnt2
+    bad = bad + bad2
+    rep.extra["native_structured_graphs"] = {"graphs": cnt2, "note": "directed 5-node chain plus every pair of bidirected chords, and pseudo-random sparse 5/6-node ADMGs; brute-force comparison with the definition, not solver-decided" + ("; enlarged because the encoding could not be built on this tree" if unsupported else "")}
     for b in bad:
         what = f"get_conditional_independencies(max_conditions={b['k']}) on nodes={b['nodes']} di={b['di']} bi={b['bi']}: {b['observed']} (native validation corpus)"
         rep.add_violation(Violation(PROP, [f"native k={b['k']}"], what, {"property": PROP, **b}))
